@@ -208,6 +208,10 @@ class UdpInverterProtocol(InverterProtocol, asyncio.DatagramProtocol):
                     self._close_transport()
                 return await self.send_request(command)
             return self._max_retries_reached()
+        except OSError:
+            # the socket could not be opened (e.g. network is unreachable), the request ends here
+            self._retry = 0
+            raise
         finally:
             if self._lock and self._lock.locked():
                 self._lock.release()
